@@ -26,7 +26,7 @@ COMPONENTS = {
 
 def gen_case(tp, tier):
     feat = {'tempo_clocks': True, 'init_beats': tp.draw(2) == 0,
-            'tempo_change': True, 'grid': True}
+            'tempo_change': True, 'grid': True, 'etempo': True}
     prog = rprog.gen(tp, feat, tier)
     while not prog['clocks']:
         prog = rprog.gen(tp, feat, tier)
@@ -171,6 +171,24 @@ def check_laws(name, res, viol, stats):
                 viol.add('C12-2', f'{name}-tempo-not-set',
                          f'{name}: tempo set to {v}: tempo {d["tempo"]}, '
                          f'beat_dur {d["beat_dur"]}')
+        elif ev == 'etempo':
+            ci, v, d = e['vals']
+            stats['etempo-changes'] = stats.get('etempo-changes', 0) + 1
+            # the change pivots on the physical present: the clock's beat at
+            # the elapsed time neither jumps nor runs backwards across it
+            tol = REL * max(1.0, abs(d['eb0']), abs(d['eb1']))
+            most = (d['t1'] - d['t0']) * max(abs(d['tempo0']), abs(v))
+            jump = d['eb1'] - d['eb0']
+            if not (-tol <= jump <= most + tol):
+                viol.add('C12-2', f'{name}-etempo-beat-discontinuous',
+                         f'{name}: etempo({v}) (tempo was {d["tempo0"]}): '
+                         f'elapsed_beats {d["eb0"]} -> {d["eb1"]} while '
+                         f'{d["t1"] - d["t0"]} s went by (at most {most} '
+                         f'beats)')
+            if not close(d['tempo'], v) or not close(d['beat_dur'] * v, 1.0):
+                viol.add('C12-2', f'{name}-etempo-not-set',
+                         f'{name}: etempo({v}): tempo {d["tempo"]}, '
+                         f'beat_dur {d["beat_dur"]}')
         elif ev == 'bpb':
             ci, v, d = e['vals']
             if d['own']:
@@ -228,7 +246,7 @@ def check_local(name, res, viol, prog, stats):
     last = {}           # rid -> (index, rec)
     change_idx = {}     # clock index -> list of trace indices of map changes
     for i, e in enumerate(tr):
-        if e['ev'] in ('tempo', 'beats'):
+        if e['ev'] in ('tempo', 'beats', 'etempo'):
             change_idx.setdefault(f't{e["vals"][0]}', []).append(i)
 
     def changed(cname, i, j):
@@ -280,7 +298,7 @@ def check_local(name, res, viol, prog, stats):
 
 
 def changes_map(prog):
-    return any(st[0] in ('tempo', 'beats')
+    return any(st[0] in ('tempo', 'beats', 'etempo')
                for r in prog['routines'] for st in r['body'])
 
 
